@@ -112,7 +112,20 @@ func runRules(p *propDef, c *Ctx) (err error) {
 		}
 	}()
 	p.Run(c)
+	for _, f := range extraRules[p.ID] {
+		f(c)
+	}
 	return nil
+}
+
+// extraRules holds rules registered outside the property's own Run function
+// (later rounds keep their registrations in their own files).
+var extraRules = map[string][]func(c *Ctx){}
+
+func addRule(id, rule string, floor int, f func(c *Ctx, rule string)) {
+	extraRules[id] = append(extraRules[id], func(c *Ctx) {
+		c.guard(rule, func() { f(c, rule); c.floor(rule, floor) })
+	})
 }
 
 func runProp(p *propDef, tier, repo, verif string, seed int, noSelf bool) int {
